@@ -390,7 +390,7 @@ def check_r066(fx, rep):
                 at = T.term(c["args"][0], T.Env())
                 narrow = [s for s in T.subterms(at) if s[0] == "call" and str(s[1]).split("::")[-1] in NARROW] + [s for s in T.subterms(at) if s[0] == "cast"]
                 rep.oblige(not narrow, "R06.6", f"index-narrowed:{F.strip_generics(b['def'])}", F.loc(c["span"]), "the slot index is narrowed before it reaches the layout")
-    rep.floor("R06.6", n, 2, "calls of StorageLayout::add")
+    rep.floor("R06.6", n, 1, "calls of StorageLayout::add")
     # ... and the writer files the row under that index as it stands (shared with C05 R05.1)
     from .c05 import check_row_as_handed
 
